@@ -3,7 +3,7 @@
    (LSB-0) numbering; the register is an i64 whose bit pattern is [p64 reg].
    Model: model/BitField.v (BitMask arithmetic after the two "fix:" commits) and the node level
    mir_value / mir_set_value of model/RegCodec.v. *)
-From Cam Require Import Outcome Bytes Mem BitField RegCodec P_C01 P_C02.
+From Cam Require Import Outcome Bytes Mem RustInt BitField RegCodec P_C01 P_C02 BitMaskSrc P_C02s.
 
 (* min/max are exactly the field's representable range (unsigned full-width capped at i64::MAX) *)
 Theorem C02_minmax_exact : forall lsb msb sign, field_ok lsb msb ->
@@ -87,3 +87,75 @@ Print Assumptions C02_apply_v0_refuted.
 Theorem C02_max_v0_refuted : bm_max_v0 0 62 0 = Panic /\ spec_max 0 62 0 = 2 ^ 63 - 1.
 Proof. exact max_v0_refuted. Qed.
 Print Assumptions C02_max_v0_refuted.
+
+(* ---- the code itself: gen/BitMaskSrc.v is regenerated from `impl BitMask` of genapi/src/masked_int_reg.rs on every
+   run (tools/translate_bitmask.py, debug-build semantics of lib/RustInt.v).  self = (raw_lsb, raw_msb); [norm_bit]
+   is the LSB-0 position of a declared bit; the hypotheses are those under which the node level uses the field. *)
+Theorem C02_positions_from_source : forall rl rm len e, raw_ok rl -> raw_ok rm -> len_ok len -> flag e ->
+  src_bm_lsb rl rm len e = norm_bit len e rl /\ src_bm_msb rl rm len e = norm_bit len e rm.
+Proof. intros. split; [apply lsb_from_source|apply msb_from_source]; assumption. Qed.
+Print Assumptions C02_positions_from_source.
+
+Theorem C02_mask_from_source : forall rl rm len e l m, raw_ok rl -> raw_ok rm -> len_ok len -> flag e ->
+  norm_bit len e rl = Ok l -> norm_bit len e rm = Ok m -> field_ok l m ->
+  src_bm_mask rl rm len e = Ok (bm_mask l m).
+Proof. exact mask_from_source. Qed.
+Print Assumptions C02_mask_from_source.
+
+Theorem C02_min_from_source : forall rl rm len e sign l m, raw_ok rl -> raw_ok rm -> len_ok len -> flag e -> flag sign ->
+  norm_bit len e rl = Ok l -> norm_bit len e rm = Ok m -> field_ok l m ->
+  src_bm_min rl rm len e sign = Ok (bm_min l m sign).
+Proof. exact min_from_source. Qed.
+Print Assumptions C02_min_from_source.
+
+Theorem C02_max_from_source : forall rl rm len e sign l m, raw_ok rl -> raw_ok rm -> len_ok len -> flag e -> flag sign ->
+  norm_bit len e rl = Ok l -> norm_bit len e rm = Ok m -> field_ok l m ->
+  src_bm_max rl rm len e sign = Ok (bm_max l m sign).
+Proof. exact max_from_source. Qed.
+Print Assumptions C02_max_from_source.
+
+Theorem C02_apply_from_source : forall rl rm reg len e sign l m,
+  raw_ok rl -> raw_ok rm -> len_ok len -> flag e -> flag sign ->
+  norm_bit len e rl = Ok l -> norm_bit len e rm = Ok m -> field_ok l m ->
+  src_bm_apply_mask rl rm reg len e sign = Ok (bm_apply l m sign reg).
+Proof. exact apply_from_source. Qed.
+Print Assumptions C02_apply_from_source.
+
+Theorem C02_masked_value_from_source : forall rl rm old v len e sign l m,
+  raw_ok rl -> raw_ok rm -> len_ok len -> flag e -> flag sign ->
+  norm_bit len e rl = Ok l -> norm_bit len e rm = Ok m -> field_ok l m ->
+  src_bm_masked_value rl rm old v len e sign = bm_masked l m sign old v.
+Proof. exact masked_from_source. Qed.
+Print Assumptions C02_masked_value_from_source.
+
+(* declared positions that the node level rejects with a panic make the code panic too *)
+Theorem C02_source_panics_with_model : forall rl rm len e, raw_ok rl -> raw_ok rm -> len_ok len -> flag e ->
+  norm2 len e rl rm = Panic -> src_bm_mask rl rm len e = Panic.
+Proof. exact mask_panics. Qed.
+Print Assumptions C02_source_panics_with_model.
+
+(* the clauses of the property, of the translated code: a successful write reads back and leaves every other bit alone;
+   the range check is exact; reading decodes exactly the field's bits *)
+Theorem C02_source_write_readback : forall rl rm len e l m sign old v nv, src_field rl rm len e l m -> flag sign ->
+  src_bm_masked_value rl rm old v len e sign = Ok nv ->
+  src_bm_apply_mask rl rm nv len e sign = Ok v /\
+  (forall i, 0 <= i < 64 -> mbit l m i = false -> Z.testbit (p64 nv) i = Z.testbit (p64 old) i).
+Proof. exact source_write_readback. Qed.
+Print Assumptions C02_source_write_readback.
+
+Theorem C02_source_range_check : forall rl rm len e l m sign old v, src_field rl rm len e l m -> flag sign ->
+  (spec_min l m sign <= v <= spec_max l m sign -> exists nv, src_bm_masked_value rl rm old v len e sign = Ok nv) /\
+  (v < spec_min l m sign \/ spec_max l m sign < v -> src_bm_masked_value rl rm old v len e sign = Err E_INVALID_DATA).
+Proof. exact source_range_check. Qed.
+Print Assumptions C02_source_range_check.
+
+Theorem C02_source_read_any : forall rl rm len e l m sign reg, src_field rl rm len e l m -> flag sign ->
+  src_bm_apply_mask rl rm reg len e sign = Ok (spec_get l m sign reg) /\
+  src_bm_min rl rm len e sign = Ok (spec_min l m sign) /\ src_bm_max rl rm len e sign = Ok (spec_max l m sign).
+Proof. exact source_read_any. Qed.
+Print Assumptions C02_source_read_any.
+
+Theorem C02_source_example : src_field 11 4 4 1 20 27 /\ src_bm_masked_value 11 4 (-1) (-128) 4 1 1 = Ok (-133169153)
+  /\ src_bm_apply_mask 11 4 (-133169153) 4 1 1 = Ok (-128).
+Proof. exact src_field_example. Qed.
+Print Assumptions C02_source_example.
